@@ -256,6 +256,36 @@ def run(facts, res):
     res.instance("K2", "loader rejections under an arity test carry no condition beyond per-element shape checks", r.loc())
     # K2h: every key Delta::to_json writes conditionally is optional for the loader: no rejection is conditioned on its absence
     _optional_keys_accepted(facts, res, w, r)
+    # K2i: the loader keeps every change record it parses: records are accumulated by `push` (or a keyed insert whose key is the whole
+    # revision). A keyed collection whose key is a projection ((object, revision index)) collapses two same-index revisions of one
+    # object - exactly what a committed resolution of equally long branches writes - and the reopened replica misses one of them.
+    from ..common import members_of as _mok
+    n_rec = 0
+    for m_ in _mok(facts, r):
+        dum = du_of(m_)
+        for bi, t in m_.calls():
+            c_ = t.callee
+            if c_ is None or len(t.args) < 2:
+                continue
+            carries_change = any(x[0] == "agg" and str(x[1]).endswith("melda::Change") for a_ in range(1, len(t.args)) for x in walk(dum.operand_term(t.args[a_], 12)))
+            if not carries_change or c_.krate not in ("std", "alloc", "core", "hashbrown"):
+                continue
+            if c_.name in ("push", "push_back", "extend", "extend_from_slice"):
+                n_rec += 1
+                res.instance("K2", "%s: a parsed change record is appended (%s): nothing can be collapsed" % (m_.path, c_.name), m_.loc(t.line))
+            elif c_.name in ("insert", "entry", "replace") and any(k_ in (c_.path or "") + (c_.self_ty or "") for k_ in ("BTreeMap", "HashMap", "BTreeSet", "HashSet")):
+                n_rec += 1
+                key_t = dum.operand_term(t.args[1], 20)
+                lossy = contains_call(key_t, "index") or contains_call(key_t, "digest") or contains_call(key_t, "tail") or \
+                    not any(x[0] == "agg" and "Revision" in str(x[1]) or (x[0] == "call" and callee_name(x) in ("new", "new_updated", "from", "to_string") and
+                                                                          "Revision" in str(x[4].path if x[4] is not None else "")) for x in walk(key_t))
+                res.instance("K2", "%s: parsed change records accumulated in a keyed collection; the key carries the whole revision: %s" % (m_.path, not lossy), m_.loc(t.line))
+                if lossy:
+                    res.violation("K2", "loader|records-collapsed-by-key",
+                                  "%s accumulates the change records of a block in a collection keyed by a projection of the record (%s): two records that "
+                                  "agree on it (two revisions of one object with the same index: a committed resolution of equally long branches) collapse "
+                                  "into one and the reopened replica never learns the other" % (m_.path, fmt(key_t, 5)), m_.loc(t.line))
+    res.floor("K2", "sites where the loader accumulates a parsed change record", n_rec, 2)
     # positions
     wpos = {}
     for n, els, ln, bi in arr:
@@ -494,6 +524,34 @@ def run(facts, res):
                 res.violation("K6", "serde_json|float-parse-not-exact",
                               "serde_json is built without `float_roundtrip`: a floating point number stored in a pack parses back one ULP off for about "
                               "a third of all doubles, so a reopened replica shows a different value than the committing replica did")
+
+    # ------------------------------------------------------------------ K7 nesting depth: writer unbounded, reader bounded
+    # serde_json serialises a Value of any nesting depth, but its parser stops at 128 nested containers unless the crate is built with
+    # `unbounded_depth` *and* the parse site disables the limit. Blocks and packs are written with to_string and read back with
+    # from_str / from_slice: a value nested deeper than the parser accepts is stored and can never be read again.
+    res.rule("K7", "whatever nesting depth the writers emit, the readers accept (serde_json recursion limit)")
+    parse_sites = []
+    unlimited = 0
+    for ob in facts.repo_bodies():
+        for bi, t in ob.calls():
+            c_ = t.callee
+            if c_ is None or c_.krate != "serde_json":
+                continue
+            if c_.name in ("from_str", "from_slice", "from_reader", "from_value") and c_.name != "from_value":
+                parse_sites.append((ob, t))
+            if c_.name == "disable_recursion_limit":
+                unlimited += 1
+    res.floor("K7", "serde_json parse sites in the crate (block fetch, object read)", len(parse_sites), 2)
+    if fs is not None:
+        feat_ok = all("unbounded_depth" in f for f in fs)
+        ok7 = feat_ok and unlimited >= len(parse_sites)
+        res.instance("K7", "%d parse sites; serde_json built with unbounded_depth: %s; sites that disable the recursion limit: %d" % (
+            len(parse_sites), feat_ok, unlimited), parse_sites[0][0].loc(parse_sites[0][1].line) if parse_sites else None)
+        if not ok7:
+            res.violation("K7", "serde_json|reader-depth-bounded:128",
+                          "blocks and packs are written by serde_json::to_string (any nesting depth) and read back by from_str / from_slice with the "
+                          "default recursion limit of 128: a document value or commit information nested deeper than that is committed successfully and "
+                          "is unreadable afterwards", parse_sites[0][0].loc(parse_sites[0][1].line) if parse_sites else None)
 
     # ------------------------------------------------------------------ K2f storage key
     c = facts.body("melda::Melda::commit")
